@@ -811,6 +811,11 @@ def c08():
                 callers.append([("assign", "x", ("lit", "A")), call, ("text", "|"), ("print", "x")])
                 callers.append([("for", "i", 1, 3, [call, ("print", "i")]), ("text", "|"), ("print", "x")])
                 callers.append([("for", "x", 1, 2, [call]), ("text", "|"), ("incr", "c"), ("print", "x")])
+        # counters bumped by the caller: readable as a variable through include (the caller's scope), not through render
+        for pname in ("reads_x", "counts", "show"):
+            for args in ([], [("v", ("var", "x"))]):
+                callers.append([("incr", "x"), (tag, pname, args), ("text", "|"), ("incr", "x")])
+                callers.append([("incr", "c"), ("incr", "c"), (tag, pname, args), ("text", "|"), ("incr", "c")])
         callers.append([(tag, "missing", [])])
         callers.append([("text", "before"), ("for", "i", 1, 2, [(tag, "missing", [])])])
     for prog in callers:
@@ -927,6 +932,12 @@ def c09():
     partials = {"p": "{% assign v = 'set-by-partial' %}{% cycle 'a', 'b' %}{% increment c %}"}
     out = [{"kind": "render_history", "templates": tpls, "datas": datas, "length": 3, "partials": partials},
            {"kind": "render_history", "templates": tpls[:2], "datas": datas, "length": 5}]
+    # state that must not outlive a render: the ifchanged memory (first content of a render == last content of the previous
+    # one), a capture that fails after it has captured some text followed by another capture
+    ifch = "{% for x in xs %}{% ifchanged %}<{{ x }}>{% endifchanged %}{% endfor %}"
+    capfail = "{% capture c %}row {{ x }}: {{ missing }};{% endcapture %}[{{ c }}]"
+    capok = "{% capture g %}Hello {{ x }}{% endcapture %}[{{ g }}]{% cycle 'u', 'v' %}"
+    out.append({"kind": "render_history", "templates": [ifch, capfail, capok], "datas": [{"x": 1, "xs": [1, 1, 2, 2, 1]}, {"x": "s", "xs": [2, 1, 2]}], "length": 3})
     # partial names chosen through variables, partials whose names differ only by the `.liquid` suffix, under every compilation policy
     twins = {"row": "ROW", "row.liquid": "ROW-LIQUID", "home": "HOME", "about": "ABOUT{% increment n %}"}
     dyn = ["{% render page %}|{% include page %}", "{% include 'row' %}", "{% include 'row.liquid' %}", "{% render 'row' %}{% render 'row.liquid' %}"]
